@@ -20,7 +20,8 @@ def exprs_for(case, out, which):
     head = f"({E}) {nt}%nat {dlist(ds.x.values)} {dlist(f.trans_att)} {dlit(out.gamma.values)} {dmat(out.p_cov.values)}"
     K = 273.15
     if which == "c06":
-        return (f"c06_check ({E}) {nt}%nat {dlist(ds.x.values)} (-40) {dmat(out.tmpf.values + K)} {dmat(out.tmpb.values + K)} {dmat(out.tmpw.values + K)} "
+        sabs = 64 * 2.2e-16 * getattr(case, "condN", 1.0) * float(max(np.max(out.tmpf_var.values), np.max(out.tmpb_var.values)))
+        return (f"c06_check ({E}) {nt}%nat {dlist(ds.x.values)} (-40) {dlit(sabs)} {dmat(out.tmpf.values + K)} {dmat(out.tmpb.values + K)} {dmat(out.tmpw.values + K)} "
                 f"{dmat(out.tmpf_var.values)} {dmat(out.tmpb_var.values)} {dmat(out.tmpw_var.values)} {dmat(out.tmpw_var_approx.values)} {dmat(out.tmpw_var_lower.values)}")
     if f.double:
         return (f"de_var_check {head} {dmat(out.tmpf.values + K)} {dmat(out.tmpb.values + K)} {dmat(ds.st.values)} {dmat(ds.ast.values)} {dmat(va['st_var'])} {dmat(va['ast_var'])} "
@@ -65,7 +66,14 @@ def run_params(ctx, plist, which, what):
         ctx.case((which, repr(sorted(p.items()))), nontrivial=True, sample=p)
         ctx.count(f"{'de' if p['double'] else 'se'}:nta={len(case.f.trans_att)}:fix={case.fix}")
         try:
-            out = case.run()
+            from vlib.props.c07 import capture_run
+            out, rec0 = capture_run(case)
+            Xd = rec0["X"].toarray() * np.sqrt(np.abs(rec0["w"]))[:, None]
+            sv = np.linalg.svd(Xd / np.maximum(np.linalg.norm(Xd, axis=0), 1e-300), compute_uv=False)
+            sv = sv[sv > 1e-9 * sv[0]]
+            case.condN = float((sv[0] / sv[-1]) ** 2)   # condition number of the column-scaled normal matrix on its range
+            if case.condN > 1e6:
+                ctx.count("cond(N)>1e6")
         except Exception as ex:
             ctx.count(f"calibration-raised-{type(ex).__name__}")
             continue
